@@ -1,19 +1,33 @@
 (* C12 driver.
-   (case ID (file NAME LINE...) (file NAME LINE...) ...) -> one result line
-     "ID status=S errors=N report=0|1 clean=0|1 msgs=M;M;..."   with
+   (case ID (opts STRICT PEDANTIC PERMISSIVE CHECKPAYEES) (file NAME LINE...) ...) -> one result line
+     "ID status=S errors=N report=0|1 clean=0|1 style=STYLE msgs=M;M;..."   with
      M = CHAIN>FILE:LINE:KIND:RANGE, CHAIN = f:l,f:l (outermost first, may be empty), RANGE = a-b or -
-   LINE: e (empty) | w (blanks only) | (s K) indented, K = -1: parses, else throws class K
-       | (i T B F) unindented item: T head throw class or -1, B 1 = block, F whole-item rejection class or -1
+     STYLE = normal | permissive | warning | error (journal->checking_style for these options)
+   LINE: e (empty) | w (blanks only)
+       | (s ANN...) indented line with the checks made on it, in order
+       | (i (ANN...) B (ANN...)) unindented item: checks on the head line, B 1 = block, checks when
+         the whole item is accepted (finalize, then metadata)
        | (inc NAME LINE...) include of file NAME with its lines
+   ANN:  K            rejected with class K whatever the options
+       | (u NK K)     uses an undeclared name, NK = acct | comm | tag | payee
+       | (b K)        a balance assertion that is off
    (status N) -> "status N S" with S the exit status the parent sees for an error count of N *)
-let opt_of z = if int_of_string z < 0 then None else Some (z_of_string z)
+let nk_of = function
+  | "acct" -> NAccount | "comm" -> NCommodity | "tag" -> NTag | "payee" -> NPayee
+  | _ -> failwith "name kind"
+
+let ann_of = function
+  | A k -> AThrow (z_of_string k)
+  | L [A "u"; A nk; A k] -> AUnknown (nk_of nk, z_of_string k)
+  | L [A "b"; A k] -> ABalAssert (z_of_string k)
+  | _ -> failwith "ann"
 
 let rec line_of = function
-  | A "e" -> LEmpty
-  | A "w" -> LWs
-  | L [A "s"; A k] -> LSub (opt_of k)
-  | L [A "i"; A t; b; A f] -> LItem (opt_of t, batom b, opt_of f)
-  | L (A "inc" :: A name :: body) -> LInclude (z_of_string name, List.map line_of body)
+  | A "e" -> RLEmpty
+  | A "w" -> RLWs
+  | L (A "s" :: anns) -> RLSub (List.map ann_of anns)
+  | L [A "i"; L t; b; L f] -> RLItem (List.map ann_of t, batom b, List.map ann_of f)
+  | L (A "inc" :: A name :: body) -> RLInclude (z_of_string name, List.map line_of body)
   | _ -> failwith "line"
 
 let file_of = function
@@ -25,15 +39,19 @@ let show_msg (m : msg) : string =
   let rng = (match m.m_range with None -> "-" | Some (a, b) -> string_of_z a ^ "-" ^ string_of_z b) in
   Printf.sprintf "%s>%s:%s:%s:%s" chain (string_of_z m.m_file) (string_of_z m.m_line) (string_of_z m.m_kind) rng
 
+let style_name = function
+  | SNormal -> "normal" | SPermissive -> "permissive" | SWarning -> "warning" | SError -> "error"
+
 let handle line =
   match parse_sexp line with
-  | L (A "case" :: A id :: files) ->
+  | L (A "case" :: A id :: L [A "opts"; s; p; m; c] :: files) ->
+    let o = { o_strict = batom s; o_pedantic = batom p; o_permissive = batom m; o_check_payees = batom c } in
     let fs = List.map file_of files in
-    let r = session fs in
-    let clean = List.for_all (fun (_, ls) -> file_clean ls) fs in
-    [Printf.sprintf "%s status=%s errors=%s report=%d clean=%d msgs=%s" id
+    let r = run_session o fs in
+    let clean = List.for_all (fun (_, ls) -> file_clean ls) (resolve_files o fs) in
+    [Printf.sprintf "%s status=%s errors=%s report=%d clean=%d style=%s msgs=%s" id
        (string_of_z r.r_status) (string_of_z r.r_errors) (if r.r_report then 1 else 0)
-       (if clean then 1 else 0)
+       (if clean then 1 else 0) (style_name (checking_style o))
        (String.concat ";" (List.map show_msg r.r_msgs))]
   | L [A "status"; A n] ->
     ["status " ^ n ^ " " ^ string_of_z (h_mod (status_of_count (z_of_string n)) (z_of_int 256))]
